@@ -12,6 +12,8 @@
               a polychord name) is accepted by from_shorthand.
 * three     : every 3-note input: every returned name's chord contains the three given names.
 * trivial   : 0, 1, 2 notes.
+* cold_order: every ordered pair of library shorthands on a root, in a freshly loaded chords module: the second chord
+              is built (same notes as from a cold start) and recognised whatever was built first.
 """
 import itertools
 
@@ -192,6 +194,29 @@ def run_recognise(case):
     S.outcome((tuple(T.split_root(short[i])[1] for i in hits), k))
 
 
+def run_cold_order(case):
+    """case = [earlier shorthand, shorthand, root]: in a freshly loaded chords module the earlier chord is the first
+    thing ever built on the root; the chord under test must be built and recognised as from a cold start."""
+    import importlib
+    S = engine.S
+    pre, sh, root = case
+    importlib.reload(chords)
+    base, e0 = call(chords.from_shorthand, root + sh)
+    importlib.reload(chords)
+    first, e1 = call(chords.from_shorthand, root + pre)
+    if e1 is None and isinstance(first, list) and len(first) >= 3:
+        call(chords.determine, list(first), True)
+    chord, e = call(chords.from_shorthand, root + sh)
+    S.trans(3)
+    if (e0 is None) != (e is None) or (e is None and chord != base):
+        S.problem("from_shorthand(%r) when %r was the first chord built on that root" % (root + sh, root + pre),
+                  base if e0 is None else err_name(e0), chord if e is None else err_name(e))
+        return
+    for k in (0, 1):
+        run_recognise([sh, root, k])
+    S.count("cold_order_pairs")
+
+
 # ---------------------------------------------------------------------------------------
 # total: never raises, same length and order, names accepted
 # ---------------------------------------------------------------------------------------
@@ -349,6 +374,7 @@ CLAUSES = {
     "total": run_total,
     "three": run_three,
     "trivial": run_trivial,
+    "cold_order": run_cold_order,
 }
 
 
@@ -451,6 +477,12 @@ def explore(ctx):
                     roots.append(n)
         ctx.bound("recognise_roots", "CANON(2): 35" if ctx.quick else "NAMES(3) + CANON(4): %d" % len(roots))
         ctx.product("recognise", shs, gen_recognise(roots))
+
+    if ctx.want("cold_order"):
+        lib = sorted(chords.chord_shorthand)
+        croots = ctx.pick(["Eb", "F#"], ["Eb", "F#", "C", "B", "Ab", "D#", "Bb"])
+        ctx.bound("cold_order", {"ordered pairs of library shorthands": len(lib) ** 2, "roots": croots})
+        ctx.product("cold_order", lib, lambda pre: ([pre, sh, r] for sh in lib for r in croots))
 
     if ctx.want("three"):
         names3 = ctx.pick(c1, c1)
